@@ -81,6 +81,22 @@ def make_obs(ctx):
                           mem=True, replay='asan', group='tzm-find', timeout=900,
                           bounds={'map': '%d records with keys of %s words (bytes symbolic, sorted), zone offsets symbolic' % (len(sh), '/'.join(map(str, sh))),
                                   'lookup': 'any key of %d bytes in an object of exactly %d bytes' % (ql, ql + 1)}))
+    # zone maps: any file with the magic is refused or looked up inside the image
+    for sz in ((15, 16, 24, 28, 32) if ctx.tier == 'quick' else tuple(range(12, 41))):
+        fit = [o for o in range(4, max(sz - 16 - 8, 0) + 1, 4)]
+        offs = sorted(set(fit + [0, 3, 5, max(sz - 16, 0), sz, 0x7fffff00, 0xffffffff]))
+        for ho in offs:
+            for ql in ((1, 4) if ctx.tier == 'quick' else (1, 2, 4, 5)):
+                if ho not in fit and ql != 1:
+                    continue
+                nw = max((sz - 16 - ho) // 4, 1) if ho in fit else 1
+                obs.append(Ob('tzm-any:size%d:off%x:q%d' % (sz, ho, ql), 'C19_tzm.c', 'h_tzm_any', {'SIZE': sz, 'HOFF': '%dU' % ho, 'QLEN': ql, 'MAXW': 1},
+                              unwind=max(sz, 16) + 4,
+                              unwindset=['%s:%d' % (ctx.tzm_loops['rewind'], 4 * nw + 2), '%s:%d' % (ctx.tzm_loops['cmp'], ql + 3),
+                                         '%s:%d' % (ctx.tzm_loops['outer'], nw + 2)] +
+                                        (['%s:%d' % (ctx.tzm_loops['skip'], 4 * nw + 2)] if 'skip' in ctx.tzm_loops else []),
+                              mem=True, replay='asan', group='tzm-any', timeout=900, memgb=6,
+                              bounds={'image': '%d bytes, arbitrary after the magic, header offset field %#x' % (sz, ho), 'lookup': 'any key of %d bytes' % ql}))
     return [o for o in obs if o is not None]
 
 
